@@ -12,12 +12,21 @@ package console
 import (
 	"fmt"
 	"image/color"
+	"io"
 	"testing"
+	"unsafe"
+
+	"github.com/ProjectSerenity/firefly/kernel"
+	"github.com/ProjectSerenity/firefly/kernel/mm"
+	"github.com/ProjectSerenity/firefly/kernel/mm/vmm"
 
 	"github.com/ProjectSerenity/firefly/kernel/device/video/console/font"
 	"github.com/ProjectSerenity/firefly/kernel/internal/verifrt"
 	"github.com/ProjectSerenity/firefly/kernel/multiboot"
 )
+
+// vfKeepAlive holds the backing array of the mapping handed to the last "init-ok" (the driver only keeps an interior pointer)
+var vfKeepAlive [][]byte
 
 func vfSynthFont(w, h uint32) *font.Font {
 	bpr := (w + 7) / 8
@@ -212,6 +221,41 @@ func vf19Fb(run *verifrt.Run, c vfFbCfg, op vfConsOp) {
 				cons.Write(pre.Ch, pre.Fg, pre.Bg, pre.X, pre.Y)
 			case pre.Op == "fill":
 				cons.Fill(pre.X, pre.Y, pre.W, pre.H, pre.Fg, pre.Bg)
+			case pre.Op == "init-fail":
+				// a re-initialisation whose mapping request is refused; the caller handles the error and keeps
+				// using the console, which still owns its framebuffer
+				saved := mapRegionFn
+				mapRegionFn = func(mm.Frame, uintptr, vmm.PageTableEntryFlag) (mm.Page, *kernel.Error) {
+					return 0, &kernel.Error{Module: "verif", Message: "mapping refused"}
+				}
+				func() {
+					defer func() { mapRegionFn = saved }()
+					_ = cons.DriverInit(io.Discard)
+				}()
+			case pre.Op == "init-ok":
+				// a successful re-initialisation onto a page-aligned mapping that shows the same memory content;
+				// the default palette is loaded again
+				size := len(cons.fb)
+				raw := make([]byte, size+8192)
+				off := int((4096 - uintptr(unsafe.Pointer(&raw[0]))&4095) & 4095)
+				nb := raw[off : off+size : off+size]
+				copy(nb, cons.fb)
+				saved := mapRegionFn
+				mapRegionFn = func(mm.Frame, uintptr, vmm.PageTableEntryFlag) (mm.Page, *kernel.Error) {
+					return mm.PageFromAddress(uintptr(unsafe.Pointer(&nb[0]))), nil
+				}
+				func() {
+					defer func() { mapRegionFn = saved }()
+					if err := cons.DriverInit(io.Discard); err != nil {
+						panic("verif: DriverInit failed with a mapping that was granted: " + err.Message)
+					}
+				}()
+				vfKeepAlive = append(vfKeepAlive[:0], raw)
+				for i, pc := range vfMkFb(c).palette {
+					if pc != nil {
+						model[i] = pc.(color.RGBA)
+					}
+				}
 			}
 		}()
 		if ppan != nil {
@@ -603,6 +647,7 @@ func TestVerifC19(t *testing.T) {
 				{Op: "write", X: 2, Y: 1, Ch: 'B', Fg: ci, Bg: 0}, {Op: "write", X: 2, Y: 1, Ch: 'B', Fg: 0, Bg: ci},
 				{Op: "fill", X: 1, Y: 2, W: 1, H: 1, Bg: ci}, {Op: "fill", X: 1, Y: 2, W: 1, H: 1, Bg: 0},
 				{Pal: &vfPalOp{ci, oc.R ^ 0x80, oc.G ^ 0x40, oc.B, oc.A}}, {Pal: &vfPalOp{0, o0.R ^ 0x40, o0.G, o0.B ^ 0x80, o0.A}},
+				{Op: "init-fail"}, {Op: "init-ok"},
 			}
 			finals := []vfConsOp{
 				{Op: "write", X: 1, Y: 1, Ch: 'A', Fg: ci, Bg: 0}, {Op: "write", X: 1, Y: 1, Ch: 'A', Fg: 0, Bg: ci},
@@ -647,6 +692,6 @@ func TestVerifC19(t *testing.T) {
 			vf19Vga(run, 80, 25, true, op)
 		}
 	}
-	run.Finish(true, "framebuffer: grids 1..3 x 1..3, fonts {8x2, 9x2, 16x1 synthetic, shipped 8x16; thorough: 12x3 and all three shipped fonts}, depths {8,15,16,24,32} with mask layouts {5-5-5, 5-6-5, RGB888, BGR888}, pitch padding {0,(1),5}, logo rows {0,(1),3}, remainder rows {0,1}, pristine and fully written pre-states; every uint32 argument from {0,1,2,dim-1,dim,dim+1,2^31,2^32-2,2^32-1}; text mode grids 1..4 x 1..4 and 80x25; full product per operation (Write, Fill, Scroll up/down); Write/Fill after a palette entry was redefined (5 entries x 5 new colours incl. same-packing ones) against the reference's own palette; every sequence of <=3 earlier writes/fills/palette redefinitions followed by a checked write or fill",
+	run.Finish(true, "framebuffer: grids 1..3 x 1..3, fonts {8x2, 9x2, 16x1 synthetic, shipped 8x16; thorough: 12x3 and all three shipped fonts}, depths {8,15,16,24,32} with mask layouts {5-5-5, 5-6-5, RGB888, BGR888}, pitch padding {0,(1),5}, logo rows {0,(1),3}, remainder rows {0,1}, pristine and fully written pre-states; every uint32 argument from {0,1,2,dim-1,dim,dim+1,2^31,2^32-2,2^32-1}; text mode grids 1..4 x 1..4 and 80x25; full product per operation (Write, Fill, Scroll up/down); Write/Fill after a palette entry was redefined (5 entries x 5 new colours incl. same-packing ones) against the reference's own palette; every sequence of <=3 earlier writes/fills/palette redefinitions/re-initialisations (mapping granted, mapping refused) followed by a checked write or fill",
 		"distinct = console configuration; each case compares every byte of the framebuffer with the pixel/cell reference")
 }
